@@ -34,6 +34,10 @@ TimeOf(n) == IF n = 0 THEN 0 ELSE T.timeof[IF n > NOps THEN NOps ELSE n]   \* vi
 Kind(n) == IF Ops[n].op \in {"create", "update", "delete_bucket"} THEN "bucket"
            ELSE IF Ops[n].writes # <<>> THEN "event" ELSE "other"
 SeqSet(sq) == {sq[i] : i \in 1..Len(sq)}
+Max2(a, b) == IF a > b THEN a ELSE b
+\* the last operation up to n that is a call of the library (clock ticks are not)
+RECURSIVE LastReal(_)
+LastReal(n) == IF n = 0 THEN 0 ELSE IF Ops[n].op # "tick" THEN n ELSE LastReal(n - 1)
 
 \* abstract file contents: bucket id -> [m (metadata tag), tags (set of event tags)]
 ApplyW(st, w) ==
@@ -84,8 +88,15 @@ Next ==
   /\ \E j \in Cands :
        /\ ClauseFor(j) = "none"
        /\ dur' = j /\ dstate' = ObsState(O)
-       \* a flush is observed when the prefix advanced or nothing is pending; date it as late as possible
-       /\ flushT' = IF j > dur \/ j = EndIdx(Done) THEN TimeOf(CurOp) ELSE flushT
+       \* "the previous flush", as far as it can be observed: (a) the durable prefix advanced - that happened
+       \* while the operation of the previous observation ran, so it is dated then; (b) an operation that is not
+       \* an event write (a read, a bucket operation, an operation that raised - anything that may commit) has
+       \* completed and nothing is pending: it may have flushed, which is counted in the implementation's favour.
+       \* Idle time (ticks) and event writes that return with their own write pending are NOT flushes.
+       /\ flushT' = IF j > dur THEN TimeOf(prevOp)
+                    ELSE IF AtBoundary /\ j = EndIdx(Done) /\ LastReal(Done) > 0 /\ Kind(LastReal(Done)) # "event"
+                         THEN Max2(flushT, TimeOf(LastReal(Done)))
+                    ELSE flushT
   /\ prevOp' = CurOp
   /\ l' = l + 1 /\ UNCHANGED tid
 Spec == Init /\ [][Next]_vars
